@@ -45,9 +45,9 @@ def fate(b):
 
 def ptyproc_obj(b):
     return b.obj('ptyproc', 'iface:ptyproc', sealed=False,
-                 status=b.opt('p.status', lambda: b.int('p.status')),
-                 exitstatus=b.opt('p.exitstatus', lambda: b.int('p.exitstatus')),
-                 signalstatus=b.opt('p.signalstatus', lambda: b.int('p.signalstatus')),
+                 status=b.sopt('p.status', lambda: b.int('p.status')),
+                 exitstatus=b.sopt('p.exitstatus', lambda: b.int('p.exitstatus')),
+                 signalstatus=b.sopt('p.signalstatus', lambda: b.int('p.signalstatus')),
                  terminated=b.bool('p.terminated'), flag_eof=b.bool('p.flag_eof'), closed=b.bool('p.closed'),
                  fd=b.int('p.fd'), pid=b.int('p.pid'))
 
@@ -56,9 +56,9 @@ def pty_shape(b):
     fate(b)
     p = ptyproc_obj(b)
     sp = b.obj('self', PTY, sealed=False, ptyproc=p,
-               status=b.opt('status', lambda: b.int('status')),
-               exitstatus=b.opt('exitstatus', lambda: b.int('exitstatus')),
-               signalstatus=b.opt('signalstatus', lambda: b.int('signalstatus')),
+               status=b.sopt('status', lambda: b.int('status')),
+               exitstatus=b.sopt('exitstatus', lambda: b.int('exitstatus')),
+               signalstatus=b.sopt('signalstatus', lambda: b.int('signalstatus')),
                terminated=b.bool('terminated'), closed=b.bool('closed'), child_fd=b.int('child_fd'), pid=b.int('pid'),
                delayafterterminate=b.real('delayafterterminate'), delayafterclose=b.real('delayafterclose'))
     b.ghost('clk', b.real('clk0'))
@@ -201,9 +201,21 @@ class SpawnIsalive(Contract):
         sp = v.old.self
         return status_mods(sp) + status_mods(sp.ptyproc) if out.label == 'dead' else []
 
+    def effects(self, v):
+        # as seen by a caller that tracks the peer (read path): the peer may act before the status is sampled
+        if 'peer' in v.g and getattr(v, 'label', None) is not None:
+            from .readpath import env_step
+            v.envc = env_step(v)
+
     def ensures(self, v):
         old, new = v.old.self, v.new.self
         out = pty_base(v)
+        if getattr(v, 'envc', None) is not None:
+            out.append(('env', v.envc))
+            if v.label == 'dead':
+                out.append(('reaped-means-exited', eq(v.g['peer'], 2)))
+            elif v.label == 'alive':
+                out.append(('alive-means-not-exited', Not(eq(v.g['peer'], 2))))
         if v.raised is not None:
             return out + [('C09:nothing-changes-on-error', status_unchanged(old, new)),
                           ('error-only-while-not-reaped', Not(old.ptyproc.terminated))]
